@@ -24,7 +24,12 @@ def run_one(d, keep=False):
         copy = os.path.join(work, "repo")
         os.makedirs(copy)
         subprocess.check_call(["rsync", "-a", "--exclude", "_build", "--exclude", ".git", REPO + "/", copy + "/"])
-        for e in d["edits"]:
+        if d.get("patch"):
+            r0 = subprocess.run(["git", "apply", os.path.join(VERIF, d["patch"])], cwd=copy, stdout=subprocess.PIPE,
+                                stderr=subprocess.STDOUT, text=True)
+            if r0.returncode != 0:
+                return "STALE", "patch does not apply: " + r0.stdout[-300:]
+        for e in d.get("edits", []):
             path = os.path.join(copy, e["file"])
             s = open(path).read()
             if s.count(e["old"]) < 1:
@@ -57,8 +62,20 @@ def run_one(d, keep=False):
             shutil.rmtree(work, ignore_errors=True)
 
 
+def load_seeded():
+    out = []
+    base = os.path.join(VERIF, "seeded")
+    for name in sorted(os.listdir(base)) if os.path.isdir(base) else []:
+        mp = os.path.join(base, name, "meta.json")
+        if os.path.exists(mp):
+            m = json.load(open(mp))
+            out.append({"name": name, "property": m["property"], "patch": os.path.join("seeded", name, "patch.diff"),
+                        "what": "seeded change written by an independent sub-agent", "scale": 1, "_meta": mp})
+    return out
+
+
 def main(argv):
-    drills = load()
+    drills = load_seeded() if "--seeded" in argv else load()
     if "--list" in argv:
         for d in drills:
             print("%-40s %s  %s" % (d["name"], d["property"], d["what"]))
@@ -74,6 +91,11 @@ def main(argv):
         sys.stdout.flush()
         if status != "CAUGHT":
             bad += 1
+        if d.get("_meta"):
+            m = json.load(open(d["_meta"]))
+            m["check_run"] = {"command": "./check %s --tier quick (against a scratch copy of /repo with the patch applied)" % d["property"],
+                              "result": status, "summary": info.splitlines()[:12]}
+            json.dump(m, open(d["_meta"], "w"), indent=1)
     print("[drill] %d/%d caught" % (len(sel) - bad, len(sel)))
     return 1 if bad else 0
 
